@@ -239,8 +239,15 @@ def emit_shape(idx, root, features, strategy_seed=0):
         sa("FSM::ACTIVE_BITS == %d" % ex.active_bits, "ACTIVE_BITS == %d" % ex.active_bits)
         sa("FSM::RESUMABLE_BITS == %d" % ex.resumable_bits, "RESUMABLE_BITS == %d" % ex.resumable_bits)
         sa("FSM::SERIAL_BITS == %d" % ex.serial_bits, "SERIAL_BITS == %d" % ex.serial_bits)
+        # ... and the copy the buffers and streams are sized with (ArgsT) carries the same value in a type that can hold it
+        sa("FSM::Args::SERIAL_BITS == FSM::SERIAL_BITS", "Args::SERIAL_BITS == SERIAL_BITS")
+        sa("sizeof(FSM::Args::SERIAL_BITS) == sizeof(hfsm2::Long)", "type of Args::SERIAL_BITS is Long")
     if "PLANS" in features:
         sa("FSM::TASK_CAPACITY == %d" % ex.task_capacity, "TASK_CAPACITY == %d" % ex.task_capacity)
+        sa("FSM::Args::TASK_CAPACITY == FSM::TASK_CAPACITY && sizeof(FSM::Args::TASK_CAPACITY) == sizeof(hfsm2::Long)", "Args::TASK_CAPACITY == TASK_CAPACITY")
+    sa("FSM::Args::STATE_COUNT == FSM::STATE_COUNT && sizeof(FSM::Args::STATE_COUNT) == sizeof(hfsm2::Long)", "Args::STATE_COUNT == STATE_COUNT")
+    sa("FSM::Args::COMPO_COUNT == FSM::COMPO_COUNT && FSM::Args::ORTHO_COUNT == FSM::ORTHO_COUNT && FSM::Args::ORTHO_UNITS == FSM::ORTHO_UNITS",
+       "Args region counts == RF_ region counts")
     lines.append("}")
     return "\n".join(lines), ex
 
@@ -279,6 +286,13 @@ def wide_shapes():
             inner = Node(kind, [Node(L) for _ in range(w)])
             out.append(Node(CP, [Node(O, [Node(L), Node(C, [Node(L), inner]), Node(L)]), Node(L)]))
     return out
+
+
+def big_shapes():
+    """machines whose totals exceed what an 8-bit constant can hold (more than 255 states / serial bits / prongs): 52 concurrently active
+    composite regions of four sub-states need 261 serial bits"""
+    return [Node(OP, [Node(C, [Node(L) for _ in range(4)]) for _ in range(52)]),
+            Node(CP, [Node(C, [Node(L) for _ in range(4)]) for _ in range(64)])]
 
 
 def mixed_shapes():
